@@ -243,6 +243,7 @@ def fold_factories(im: Image) -> FactoryFold:
         for key, v in first[direction].items():
             v2 = second[direction].get(key)
             if v2 is not None and v2 != v:
+                what = "rename" if v2[0] != v[0] else "omit_if_default"
                 out.order_dependent.append((direction, f"{key[0]}.{key[1]}",
-                                            f"{v} when classes are met in declaration order, {v2} in the reverse order"))
+                                            f"{what}: {v} when classes are met in declaration order, {v2} in the reverse order"))
     return out
